@@ -18,7 +18,7 @@ ID = "C20"
 LEVEL = "exploration"
 SHARDS = {"quick": 8, "thorough": 16}
 RULE = ("argv = control <host> [--capabilities] [--auto | --id N --token T --key K] + 1..3 setting=value pairs, run through msmart.cli.main() "
-        "in-process on the virtual-time network against a V2 (or V3) model device in a generated initial state (its property-protocol settings at their defaults or all switched on). Valid pairs come "
+        "in-process on the virtual-time network against a V2 (or V3) model device in a generated initial state (optionally slow to answer the first state query, so that its answer to the repeated query arrives while the settings are being applied; its property-protocol settings at their defaults or all switched on). Valid pairs come "
         "from a table written from README lines 120-133: every writable setting; enumerations by member name in lower/upper/mixed "
         "case and by integer value (all members of all enums), raw integers 1..102 for fan_speed; numbers as int and float text "
         "incl. boundaries; booleans as True/False/true/false/TRUE/1/0; display_on equal to / different from the device's display. "
@@ -139,6 +139,28 @@ def run_cli(case: dict):
             discsim.UdpWorld(net, [dict(ip=h["ip"], listen_port=6445, replies=[(0.05, 6445, discsim.good_reply(h))])])
         holder["m"], holder["dev"] = m, dev
         holder["before"] = m.state.copy()
+        if case.get("late_dup"):
+            # the unit is slow to answer the first state query (2.05 s: the client asks again after 2 s) and answers the repeated
+            # query too: that second, identical report arrives `late_dup` s after the repeated query - while the CLI is already
+            # applying the settings
+            seen = {"n": 0}
+            from .. import refcodec as rc
+
+            def on_data(dev_, conn, frame):
+                try:
+                    b = rc.frame_parse(frame).body
+                    is_state_query = b[0] == 0x41 and b[1] == 0x81
+                except Exception:
+                    is_state_query = False
+                if not is_state_query:
+                    return None
+                seen["n"] += 1
+                if seen["n"] == 1:
+                    return ("answer", {"delay": 2.05})
+                if seen["n"] == 2:
+                    return ("answer", {"delay": case["late_dup"]})
+                return None
+            dev.on_data = on_data
 
     harness.reset_library_globals()
     policy = vloop.VPolicy(lambda: net, on_loop)
@@ -169,6 +191,18 @@ def run_cli(case: dict):
 
 
 def check_case(case: dict):
+    v = _check_once(case)
+    if v is not None and case.get("late_dup") and case.get("capabilities") and case["kind"] == "valid":
+        # root-cause classification (recorded finding, same root cause as C01's): the late duplicate report is taken as the answer to the
+        # capability query, so the CLI works with the wrong capabilities.  Only when the failure needs both the late report and
+        # --capabilities is it this finding.
+        if _check_once({k: x for k, x in case.items() if k != "late_dup"}) is None and _check_once(dict(case, capabilities=False)) is None:
+            return ("late-report-answers-capability-query", "a late duplicate of the unit's state report is taken as the answer to the capability query of "
+                    f"msmart-ng control --capabilities, and the settings are applied with the wrong capabilities: {v[0]}: {v[1]}")
+    return v
+
+
+def _check_once(case: dict):
     status, exc, net, holder = run_cli(case)
     if case["kind"] == "invalid":
         if status == 0:
@@ -293,7 +327,7 @@ def pair_strategy():
     return st.one_of(enum_by_name, enum_by_int, fan_raw, temp, hum, boolean, boolean)
 
 
-def _mk_valid(pairs_settings, initial, caps, version, auto=False, props_on=False, nocustom=False):
+def _mk_valid(pairs_settings, initial, caps, version, auto=False, props_on=False, nocustom=False, late_dup=None):
     # one pair per setting name (later duplicates dropped): the documented meaning of repeated settings is not specified
     seen, pairs, settings = set(), [], []
     breeze_true = False
@@ -312,6 +346,8 @@ def _mk_valid(pairs_settings, initial, caps, version, auto=False, props_on=False
             "auto": bool(auto) and version == 2, "props_on": props_on}
     if nocustom and caps:
         case["caps_nocustom"] = True
+    if late_dup and version == 2 and not case["auto"] and not any(p[0] == "display_on" for p in pairs):
+        case["late_dup"] = late_dup
     return case
 
 
@@ -379,10 +415,23 @@ def run(ctx) -> None:
                         case = _mk_valid([((name, kind, pv), setting), (("display_on", "bool", disp), f"display_on={disp}")],
                                          dict(DEFAULT_INITIAL, fan=fan, display_on=True), True, 2, False, False, True)
                         ctx.check(case, lambda c: _run_one(ctx, c))
-    ctx.sweep("breeze pairs; --capabilities on a unit without custom fan speeds x reported fan speeds", z, True)
+    # a property-protocol setting together with a state setting, against a unit whose first answer is slow and whose answer to the
+    # repeated query lands while the settings are being applied
+    for pa in ((("ieco", "bool", True), "ieco=True"), (("vertical_swing_angle", "name", "POS_3"), "vertical_swing_angle=pos_3"), (("rate_select", "name", "LEVEL_3"), "rate_select=level_3"),
+               (("breezeless", "bool", True), "breezeless=True")):
+        for pb in ((("power_state", "bool", False), "power_state=False"), (("target_temperature", "num", 27.5), "target_temperature=27.5"), (("operational_mode", "name", "HEAT"), "operational_mode=heat"),
+                   (("fan_speed", "int", 33), "fan_speed=33"), (("eco", "bool", True), "eco=True")):
+            for late in (0.06, 0.07, 0.1, 0.12, 0.2):
+                for order in (0, 1):
+                    z += 1
+                    if ctx.mine(z):
+                        prs = [pa, pb] if order == 0 else [pb, pa]
+                        case = _mk_valid(prs, dict(DEFAULT_INITIAL, power=True), z % 2 == 0, 2, False, False, False, late)
+                        ctx.check(case, lambda c: _run_one(ctx, c))
+    ctx.sweep("breeze pairs; --capabilities on a unit without custom fan speeds x reported fan speeds; property + state setting x late duplicate report", z, True)
 
     valid = st.builds(_mk_valid, st.lists(pair_strategy(), min_size=1, max_size=3), gens.device_states(), st.booleans(), st.sampled_from([2, 2, 3]),
-                      st.sampled_from([False, False, True]), st.booleans(), st.sampled_from([False, False, True]))
+                      st.sampled_from([False, False, True]), st.booleans(), st.sampled_from([False, False, True]), st.sampled_from([None, None, None, 0.06, 0.07, 0.1, 0.2]))
     ctx.hyp("valid argv", valid, lambda c: _run_one(ctx, c), ctx.n(3200, 128000))
     invalid = st.tuples(st.lists(pair_strategy().map(lambda t: t[1]), max_size=2), st.sampled_from(INVALID), st.integers(0, 2)).map(
         lambda t: {"kind": "invalid", "settings": (t[0][:t[2]] + [t[1]] + t[0][t[2]:]), "initial": DEFAULT_INITIAL, "capabilities": t[2] == 1,
